@@ -205,8 +205,15 @@ def check_wallet(case, ctx):
     try:
         fp = os.path.join(tmpd, "wallet.json")
         exports = sorted(records, key=lambda d_: -len(json.dumps(d_)))
+        n_fp = 0
         for d_ in exports:
             st_, e = call(w.export_wallet, fp, 4, d_) if len(exports) % 2 else call(w.export_wallet, file_path=fp, data=d_)
+            if st_ == "exc" and isinstance(e, FileExistsError) and os.path.exists(fp):
+                # an implementation may refuse to write over an existing file: each record then goes to its own new path
+                ctx.count("export-refuses-to-overwrite (not judged)")
+                n_fp += 1
+                fp = os.path.join(tmpd, "wallet-%d.json" % n_fp)
+                st_, e = call(w.export_wallet, fp, 4, d_)
             if st_ == "exc":
                 raise Violation("C06/export/raised", "export_wallet raised %r" % (e,))
             with open(fp) as f:
@@ -219,6 +226,10 @@ def check_wallet(case, ctx):
             if back != json.loads(json.dumps(d_)):
                 raise Violation("C06/export/roundtrip", "export_wallet file differs from the exported record")
         st_, e = call(w.export_wasabi, fp)
+        if st_ == "exc" and isinstance(e, FileExistsError) and os.path.exists(fp):
+            ctx.count("export-refuses-to-overwrite (not judged)")
+            fp = os.path.join(tmpd, "wasabi.json")
+            st_, e = call(w.export_wasabi, fp)
         if st_ == "exc":
             raise Violation("C06/export/raised", "export_wasabi raised %r" % (e,))
         with open(fp) as f:
